@@ -404,10 +404,31 @@ class Engine:
         fn = self.fn
         use, defs = {}, {}
         phi_use = {}   # (pred, blk) -> regs used by blk's phis on that edge
+        # faint values: a phi whose result no instruction ever uses (directly or through other phis) carries a
+        # variable that is re-assigned before it is read again; neither it nor its inputs are kept alive by it
+        needed = set()
+        for b in fn.blocks.values():
+            for i in b.insns:
+                if i.op not in ('phi', 'dbg'):
+                    needed.update(self._uses(i))
+        grew = True
+        while grew:
+            grew = False
+            for b in fn.blocks.values():
+                for i in b.insns:
+                    if i.op == 'phi' and i.res in needed:
+                        for v, _ in i.extra['incoming']:
+                            if v[0] == 'reg' and v[1] not in needed:
+                                needed.add(v[1])
+                                grew = True
+        self.needed = needed
         for b in fn.blocks.values():
             u, d = set(), set()
             for i in b.insns:
                 if i.op == 'phi':
+                    if i.res not in needed:
+                        d.add(i.res)
+                        continue
                     for v, pb in i.extra['incoming']:
                         if v[0] == 'reg':
                             phi_use.setdefault((pb, b.name), set()).add(v[1])
@@ -434,7 +455,7 @@ class Engine:
         # registers live at block entry *after* the phis
         for b in fn.blocks.values():
             for i in b.insns:
-                if i.op == 'phi':
+                if i.op == 'phi' and i.res in needed:
                     live_in[b.name] = live_in[b.name] | {i.res}
         return live_in
 
